@@ -168,7 +168,8 @@ def run(ctx, rep):
         sc = [bb for bb, t, cal, c in b.calls() if cal == CRV + "set_current_rdh"]
         ppc = [bb for bb, t, cal, c in b.calls() if cal == pp]
         rs = [bb for bb, t, cal, c in b.calls() if cal == CRV + "reset_fsm"]
-        fe = [bb for bb, t, cal, c in b.calls() if cal and cal.endswith("Iterator::for_each")]
+        # where the words are checked: the `for_each` over the chunks, or (loop form) the direct call of check()
+        fe = [bb for bb, t, cal, c in b.calls() if cal and cal.endswith("Iterator::for_each")] or [bb for bb, t, cal, c in b.calls() if cal == CRV + "check"]
         errs = [(i, s) for i, j, s in b.stmts() if s["k"] == "assign" and s["rv"]["k"] == "agg" and (s["rv"].get("adt") or "").endswith("stats::StatType") and s["rv"].get("vname") == "Error"]
         ok = len(sc) == 1 and len(ppc) == 1 and b.dominates(sc[0], ppc[0])
         rep.check(ok, "R12.3", "R12.3|set_rdh_first", "set_current_rdh precedes both outcomes of preprocess_payload", dp)
